@@ -11,7 +11,9 @@ DevPermCtrl == {"perm-ctrl"}
 DevUpd == {"upd-special"}
 DevCopy == {"copy-mss"}
 DevCtlIden == {"cone-ctliden"}
-DevAll == {"upd-special", "copy-mss", "cone-ctliden", "perm-swap", "perm-ctrl"}
+DevSharedInfo == {"copy-shared-info"}
+DevExpecCopy == {"expec-copy-info"}
+DevAll == {"upd-special", "copy-mss", "cone-ctliden", "perm-swap", "perm-ctrl", "copy-shared-info", "expec-copy-info"}
 NewParamsC == [n \in ParamNames1 \cup ParamNames2 |->
                  IF n \in {"RX", "RY", "RZ", "RXX", "RYY", "RZZ", "CRX", "CRY", "CRZ"} THEN {<<2>>, <<6>>, <<4>>}
                  ELSE IF ParamArity(n) = 1 THEN {<<1>>, <<3>>, <<6>>}
@@ -67,6 +69,9 @@ GatesP3 == { G("H", <<0>>, e0, e0), G("T", <<2>>, e0, e0), G("CX", <<0, 2>>, e0,
 GatesP3q == { G("H", <<0>>, e0, e0), G("T", <<2>>, e0, e0), G("CX", <<0, 2>>, e0, e0), G("CX", <<2, 0>>, e0, e0),
               G("R2A", <<2, 1>>, e0, e0), G("IDEN", <<1>>, e0, e0), G("X", <<1>>, <<0>>, e0), G("CCX", <<0, 2, 1>>, e0, e0),
               G("SWAP", <<0, 1>>, e0, e0), G("SWAP", <<0, 2>>, e0, e0) }
+\* the canonical-form record self-tests (two live objects / a query that works on a copy of the MPS)
+GatesS3 == { G("CX", <<0, 2>>, e0, e0), G("ISWAP", <<1, 2>>, e0, e0) }
+QueriesS3 == { QExp("P01", <<2>>), [kind |-> "expec", op |-> "P01", where |-> <<0>>, viacopy |-> TRUE] }
 QueriesP3 == { QDense(FALSE), QAmp(<<1, 0, 1>>), QExp("P01", <<2>>), QExp("E0110", <<2, 0>>) }
 
 =============================================================================
